@@ -69,7 +69,7 @@ TEXT = {
     "C19": ("Harnessed narrowing sites only, bounded by value range (full f64 / full integer ranges), overflow and panic checks ON: component offsets are rejected or exact; component scales in [-2,2] are within half a 2.14 step; "
             "fontir's overflow guard requests decomposition exactly for 2x2 coefficients outside [-2,2]; user coordinates are stored to the nearest 16.16 step; "
             "composite deltas and use-my-metrics comparisons are exact inside the 16-bit range; MetricsBuilder::update cannot overflow; every OS/2 metric field is the half-up rounding of its own metric; "
-            "WidthClass::try_from is total. Two genuine defects outside the repaired ones are carried as known findings (deltas and advances beyond 16 bits saturate). "
+            "WidthClass::try_from is total. Three genuine defects outside the repaired ones are carried as known findings (composite deltas, advances and font-wide metrics beyond 16 bits saturate). "
             "The evidence lists every narrowing site of fontbe/fontir/fontdrasil and whether it is harnessed; sites in job bodies are outside the claim.",
             "Trusted: Kani/CBMC. Counterexamples are replayed natively in dev and release profiles (profile disagreement counts)."),
 }
